@@ -30,6 +30,18 @@ class StrSubStr(str):
         return self.shown
 
 
+class DefObj:
+    """Not a string, no __html__, and an attribute ``default`` that is an
+    object itself (what the default translation function answers for it is
+    that inner object - which is not a string either)."""
+
+    def __init__(self, s):
+        self.default = Obj(s)
+
+    def __str__(self):
+        return "outer"
+
+
 class Html:
     """Object offering __html__ (markup, inserted unescaped)."""
 
